@@ -138,6 +138,66 @@ mod harnesses {
         std::mem::forget(o);
     }
 
+    // ---- all three coordinates, concrete: 2 layers x 2 filters x {weight, bias} = 8 slots, each in turn ----
+    fn state8(v: [f32; 8]) -> Vec<Vec<Vec<Tensor>>> {
+        vec![vec![vec![Tensor::single(vec![v[0]]), Tensor::single(vec![v[1]])], vec![Tensor::single(vec![v[2]]), Tensor::single(vec![v[3]])]],
+             vec![vec![Tensor::single(vec![v[4]]), Tensor::single(vec![v[5]])], vec![Tensor::single(vec![v[6]]), Tensor::single(vec![v[7]])]]]
+    }
+    fn cells8(s: &Vec<Vec<Vec<Tensor>>>) -> [f32; 8] {
+        [cell(&s[0][0][0]), cell(&s[0][0][1]), cell(&s[0][1][0]), cell(&s[0][1][1]), cell(&s[1][0][0]), cell(&s[1][0][1]), cell(&s[1][1][0]), cell(&s[1][1][1])]
+    }
+
+    // @harness c03_slots_adamw_all props=C03 tier=quick kind=bounded flags="--no-overflow-checks" bound="2 layers x 2 filters x {weight,bias} singleton slots, each of the eight slots in turn, concrete distinct state" what="AdamW: a step in slot (layer, filter, bias) changes that slot's momentum and velocity and no other cell" timeout=1200
+    #[kani::proof]
+    #[kani::unwind(10)]
+    #[kani::stub(f32::powf, powf_sq)]
+    #[kani::stub(f32::powi, powi_model)]
+    fn c03_slots_adamw_all() {
+        let m0 = [1.0f32, 2.0, 3.0, 4.0, 5.0, 6.0, 7.0, 8.0];
+        let v0 = [0.5f32, 1.5, 2.5, 3.5, 4.5, 5.5, 6.5, 7.5];
+        let mut hit = 0;
+        while hit < 8 {
+            let (layer, filter, bias) = (hit / 4, (hit / 2) % 2, hit % 2 == 1);
+            let mut o = AdamW { learning_rate: 0.5, beta1: 0.5, beta2: 0.5, epsilon: 0.5, decay: 0.5, momentum: state8(m0), velocity: state8(v0) };
+            let mut w = Tensor::single(vec![1.0]);
+            let mut g = Tensor::single(vec![16.0]);
+            o.update(layer, filter, bias, 2, &mut w, &mut g);
+            let (m, v) = (cells8(&o.momentum), cells8(&o.velocity));
+            let mut k = 0;
+            while k < 8 { if k != hit { assert!(m[k].to_bits() == m0[k].to_bits() && v[k].to_bits() == v0[k].to_bits()); } k += 1; }
+            assert!(m[hit] != m0[hit] && v[hit] != v0[hit]);
+            std::mem::forget(o);
+            hit += 1;
+        }
+        kani::cover!(hit == 8);
+    }
+
+    // @harness c03_slots_rmsprop_all props=C03 tier=thorough kind=bounded flags="--no-overflow-checks" bound="2 layers x 2 filters x {weight,bias}, each of the eight slots in turn, centred with momentum, concrete distinct state" what="RMSprop: all three coordinates of the slot are respected by velocity, centred mean and buffer" timeout=1800
+    #[kani::proof]
+    #[kani::unwind(10)]
+    #[kani::stub(f32::powf, powf_sq)]
+    fn c03_slots_rmsprop_all() {
+        let v0 = [1.0f32, 2.0, 3.0, 4.0, 5.0, 6.0, 7.0, 8.0];
+        let g0 = [0.5f32, 1.5, 2.5, 3.5, 4.5, 5.5, 6.5, 7.5];
+        let b0 = [0.25f32, 0.75, 1.25, 1.75, 2.25, 2.75, 3.25, 3.75];
+        let mut hit = 0;
+        while hit < 8 {
+            let (layer, filter, bias) = (hit / 4, (hit / 2) % 2, hit % 2 == 1);
+            let mut o = RMSprop { learning_rate: 0.5, alpha: 0.5, epsilon: 0.5, decay: None, momentum: Some(0.5), centered: true,
+                                  velocity: state8(v0), gradient: state8(g0), buffer: state8(b0) };
+            let mut w = Tensor::single(vec![1.0]);
+            let mut g = Tensor::single(vec![16.0]);
+            o.update(layer, filter, bias, &mut w, &mut g);
+            let (v, gm, b) = (cells8(&o.velocity), cells8(&o.gradient), cells8(&o.buffer));
+            let mut k = 0;
+            while k < 8 { if k != hit { assert!(v[k].to_bits() == v0[k].to_bits() && gm[k].to_bits() == g0[k].to_bits() && b[k].to_bits() == b0[k].to_bits()); } k += 1; }
+            assert!(v[hit] != v0[hit] && gm[hit] != g0[hit] && b[hit] != b0[hit]);
+            std::mem::forget(o);
+            hit += 1;
+        }
+        kani::cover!(hit == 8);
+    }
+
     macro_rules! defaults_h {
         ($name:ident, $which:expr) => {
             #[kani::proof]
